@@ -1,4 +1,4 @@
-import OsacaVerif.Lemmas.A64Vector
+import OsacaVerif.Lemmas.A64MemOp
 import OsacaVerif.Lemmas.A64File
 /-
   C10 — AArch64 parser recovers every line and operand exactly as written.
@@ -233,49 +233,63 @@ theorem conditions_complete : condLits = [ofString "eq", ofString "ne", ofString
     ofString "cc", ofString "lo", ofString "mi", ofString "pl", ofString "vs", ofString "vc", ofString "hi",
     ofString "ls", ofString "ge", ofString "lt", ofString "gt", ofString "le", ofString "al"] := by decide
 
-/-- operand kinds for which the full round trip is closed so far;
-    `fst`: the operand stands in the first operand slot (a condition code may not) -/
-inductive CoveredKind : Bool → OpA → Prop where
-  | scalar (fst : Bool) (p n : Nat) (hp : isScalarPrefixC p = true) : CoveredKind fst (.reg (.scalar p n))
-  | alias (fst : Bool) (t : Txt) (ht : t ∈ aliasTexts) : CoveredKind fst (.reg (.alias t))
-  | vec (fst : Bool) (p n : Nat) (lanes : Option Txt) (shape idx : Option Nat) (hp : isVectorPrefixC p = true)
-      (hl : LanesOk lanes) (hs : ShapeOk shape) : CoveredKind fst (.reg (.vec p n lanes shape idx))
-  | int (fst : Bool) (i : IntA) : CoveredKind fst (.int i)
-  | cond (c : Txt) (hc : lower c ∈ condLits) : CoveredKind false (.cond c)
+/-- operand kinds for which the full round trip is closed so far.
+    `last`: the operand is the last one of the line (a memory reference has to be);
+    `fst`: it stands in the first operand slot (a condition code may not). -/
+inductive CoveredKind : Bool → Bool → OpA → Prop where
+  | scalar (last fst : Bool) (p n : Nat) (hp : isScalarPrefixC p = true) : CoveredKind last fst (.reg (.scalar p n))
+  | alias (last fst : Bool) (t : Txt) (ht : t ∈ aliasTexts) : CoveredKind last fst (.reg (.alias t))
+  | vec (last fst : Bool) (p n : Nat) (lanes : Option Txt) (shape idx : Option Nat)
+      (hp : isVectorPrefixC p = true) (hl : LanesOk lanes) (hs : ShapeOk shape) :
+      CoveredKind last fst (.reg (.vec p n lanes shape idx))
+  | int (last fst : Bool) (i : IntA) : CoveredKind last fst (.int i)
+  | cond (last : Bool) (c : Txt) (hc : lower c ∈ condLits) : CoveredKind last false (.cond c)
+  | mem (fst : Bool) (m : MemA) (hm : MemOk m) : CoveredKind true fst (.mem m)
 
-theorem coveredKind_covered (fst : Bool) (o : OpA) (h : CoveredKind fst o) (last : Bool) : CoveredOp last fst o := by
+theorem coveredKind_covered (last fst : Bool) (o : OpA) (h : CoveredKind last fst o) : CoveredOp last fst o := by
   cases h with
-  | scalar _ p n hp => exact covered_scalar last fst p n hp
-  | alias _ t ht => exact covered_alias last fst t ht
-  | vec _ p n lanes shape idx hp hl hs => exact covered_vec last fst p n lanes shape idx hp hl hs
-  | int _ i => exact covered_int last fst i
-  | cond c hc => exact covered_cond last c hc
+  | scalar _ _ p n hp => exact covered_scalar last fst p n hp
+  | alias _ _ t ht => exact covered_alias last fst t ht
+  | vec _ _ p n lanes shape idx hp hl hs => exact covered_vec last fst p n lanes shape idx hp hl hs
+  | int _ _ i => exact covered_int last fst i
+  | cond _ c hc => exact covered_cond last c hc
+  | mem _ m hm => exact covered_mem fst m hm
 
-/-- every operand is of a covered kind at its position -/
+/-- every operand is of a covered kind at its position (valid operand order: memory reference last) -/
 def KindsOk : Bool → List OpA → Prop
   | _, [] => True
-  | fst, o :: os => CoveredKind fst o ∧ KindsOk false os
+  | fst, o :: os => CoveredKind os.isEmpty fst o ∧ KindsOk false os
 
 theorem opsCovered_of_kinds (fst : Bool) (os : List OpA) (h : KindsOk fst os) : OpsCovered fst os := by
   induction os generalizing fst with
   | nil => trivial
-  | cons o os ih => exact ⟨coveredKind_covered fst o h.1 _, ih false h.2⟩
+  | cons o os ih => exact ⟨coveredKind_covered _ fst o h.1, ih false h.2⟩
 
 /-
   TODO-FULL  a64_roundtrip: for every instruction AST `a` of the property's domain (`InstrOk a`, operands
-  in valid order with every kind of `Spec.A64.OpA`: all registers incl. aliases, vectors, predicates,
-  lists and ranges, integer and floating-point immediates, shifted immediates, condition codes,
-  identifiers, prefetch operations, memory references) and every layout,
+  in valid order with every kind of `Spec.A64.OpA`) and every layout,
       parseLine (render a gaps) = .ok (expectLine a).
-  Proved below for the operand kinds of `CoveredKind`; the general machinery (`roundtrip_covered`) is
-  independent of the kinds: a further kind needs only its `CoveredOp` lemma.
+  Proved below for the operand kinds of `CoveredKind`.  Not yet covered: predicate registers, register
+  lists and ranges (their expansion is `range_expand`), floating-point and shifted immediates, identifiers
+  (with relocation/offset), prefetch operations, and identifier offsets inside memory references.
+  The general machinery (`roundtrip_covered`) is independent of the kinds: a further kind needs only its
+  `CoveredOp` lemma (see `Lemmas/A64Vector.lean` for a single-piece and `Lemmas/A64MemOp.lean` for a
+  multi-piece kind).
 -/
 
-/-- **a64_roundtrip_partial** (∀ mnemonics, ∀ operand lists of up to five operands whose kinds are
-    scalar registers `[xwbhsdq]N` in either case (∀ N) and integer immediates (∀ values; decimal or
-    hexadecimal with lower/upper-case digits; with or without `#`; signed), ∀ layouts — blanks and tabs
-    in every gap —, ∀ trailing comments): the rendered line is classified as an instruction, and
-    mnemonic, operands and comment are recovered exactly as written. -/
+/-- **a64_roundtrip_partial**: ∀ mnemonics, ∀ operand lists of up to five operands in valid order
+    (memory reference last, no condition code first) whose kinds are
+      * scalar registers `[xwbhsdq]N` in either case (∀ N), the aliases `sp wsp xzr wzr` in either case,
+      * vector / SVE registers `vN`, `vN.<lanes><shape>`, `zN.<shape>`, `…[idx]` (∀ N, lanes, shape, idx),
+      * integer immediates (∀ values; decimal or hexadecimal with lower/upper-case digits; with or
+        without `#`; signed),
+      * condition codes (the 17 codes in any case),
+      * memory references `[base]`, `[base, #imm]`, `[base, index]`, `[base, index, op]`,
+        `[base, index, op #n]` with `op ∈ lsl uxtw sxtw sxtx` in any case (∀ n: scale `2^n`), base and
+        index scalar registers or sp/zr aliases, optionally `!` or a post-index immediate,
+    ∀ layouts — blanks and tabs in every gap, also inside the brackets —, ∀ trailing comments:
+    the rendered line is classified as an instruction, and mnemonic, operands and comment are recovered
+    exactly as written. -/
 theorem a64_roundtrip_partial (a : InstrA) (gaps : List Txt) (hok : InstrOk a)
     (hkinds : KindsOk true a.ops) (hl : LayoutOk (linePieces a) gaps) :
     parseLine (render a gaps) = .ok (expectLine a) :=
@@ -309,4 +323,17 @@ example :
     layoutOkB (linePieces a) gaps = true ∧ render a gaps = ofString "\tmadd x0, W12,#-0xff  ,\t7 //c1 c2\t" ∧
     parseLine (render a gaps) = .ok (expectLine a) := by decide +kernel
 
+-- a memory reference with a scaled index, pre-index; a vector element and a condition code
+example :
+    let a : InstrA := ⟨ofString "ldr", [.reg (.vec 86 3 (some [52]) (some 83) (some 1)), .cond (ofString "Eq"),
+      .mem ⟨.alias (ofString "SP"), .idx (.scalar 119 2) (some ⟨ofString "SXTW", some (true, 3)⟩), true, none⟩], none⟩
+    let gaps : List Txt := [[], [32], [], [9], [], [32], [32], [32], [], [32], [32], [9], [32], [32], [32]]
+    layoutOkB (linePieces a) gaps = true ∧ render a gaps = ofString "ldr V3.4S[1],\tEq, [ SP ,w2 , SXTW\t#3 ] ! " ∧
+    parseLine (render a gaps) = .ok (expectLine a) ∧
+    (match expectLine a with | .instr _ [_, _, .mem m] _ => m.scale | _ => 0) = 8 := by decide +kernel
+
+example : MemOk ⟨.alias (ofString "SP"), .idx (.scalar 119 2) (some ⟨ofString "SXTW", some (true, 3)⟩), true, none⟩ :=
+  ⟨.alias _ (by decide), ⟨.scalar _ _ (by decide), fun x hx => by cases hx; decide⟩, fun _ => rfl⟩
+
 end OsacaVerif.Props.C10
+
